@@ -69,7 +69,7 @@ def sanitize_encoding(encoding: str) -> Optional[str]:
 		name = codecs.lookup(encoding).name
 		if name not in KNOWN_ENCODINGS:
 			raise LookupError
-	except LookupError:
+	except (LookupError, ValueError):  # ValueError: embedded null character
 		return
 	return name
 
